@@ -163,18 +163,23 @@ func VerifC18Update() {
 	type local struct{ id, host string }
 	var locals []local
 	for i := 0; i < nLocal; i++ {
-		k := verifapi.Choose(fmt.Sprint("local", i), 5) // 0 = absent
+		k := verifapi.Choose(fmt.Sprint("local", i), 6) // 0 = absent
 		if k == 0 {
 			continue
 		}
-		// local peers as the node reports them: id + remote address
-		shape := []struct{ id, addr, host string }{
-			{verifapi.NodeID(1), "192.0.2.1:30303", "192.0.2.1"},
-			{verifapi.NodeID(1), "192.0.2.2:51000", "192.0.2.2"},
-			{verifapi.NodeID(2), "192.0.2.1:30303", "192.0.2.1"},
-			{verifapi.NodeID(3), "[2001:db8::1]:30303", "2001:db8::1"},
+		// local peers as the node reports them: id + remote address; newer nodes report a hash as id
+		// and the node id (public key) inside a separate enode field
+		shape := []struct{ id, addr, host, hash string }{
+			{verifapi.NodeID(1), "192.0.2.1:30303", "192.0.2.1", ""},
+			{verifapi.NodeID(1), "192.0.2.2:51000", "192.0.2.2", ""},
+			{verifapi.NodeID(2), "192.0.2.1:30303", "192.0.2.1", ""},
+			{verifapi.NodeID(3), "[2001:db8::1]:30303", "2001:db8::1", ""},
+			{verifapi.NodeID(2), "192.0.2.1:30303", "192.0.2.1", "6f8a1c2e5d9b3a7f4e0c1d2b3a4f5e6d7c8b9a0f1e2d3c4b5a69788796a5b4c3"},
 		}[k-1]
 		pi := ethnode.PeerInfo{ID: shape.id}
+		if shape.hash != "" {
+			pi.ID, pi.Enode = shape.hash, "enode://"+shape.id+"@"+shape.addr
+		}
 		pi.Network.RemoteAddress = shape.addr
 		node.peers = append(node.peers, pi)
 		locals = append(locals, local{shape.id, shape.host})
